@@ -136,7 +136,7 @@ fn gen_dur(r: &mut Rng) -> BigCase {
         }
     }
     ops.push(Op::End);
-    let mut sc = MuxScenario { cfg: plain_cfg(tm), ops, start_pos: 0, io: IoKnobs::plain(), preexisting: 0 };
+    let mut sc = MuxScenario { cfg: plain_cfg(tm), ops, start_pos: 0, io: IoKnobs::plain(), preexisting: 0, fault: None };
     fit_durations(&mut sc);
     BigCase { family: "dur".into(), side, sc }
 }
@@ -181,7 +181,7 @@ fn gen_payload(r: &mut Rng, kind: Kind, offset_boundary: bool, side: i8) -> BigC
     }
     ops.push(Op::Write { track_id: 1 + (i as u32 % ntracks), s: fill(0x7E, tail, 1000) });
     ops.push(Op::End);
-    let sc = MuxScenario { cfg: plain_cfg(1000), ops, start_pos: 0, io: IoKnobs::plain(), preexisting: 0 };
+    let sc = MuxScenario { cfg: plain_cfg(1000), ops, start_pos: 0, io: IoKnobs::plain(), preexisting: 0, fault: None };
     BigCase { family: if offset_boundary { "payload_offset".into() } else { "payload_mdat".into() }, side, sc }
 }
 
